@@ -105,7 +105,7 @@ def impl_equation_terms(s):
 def cmp_equation_terms(model, impl):
     """-> 'agree' | 'disagree'"""
     if model.startswith('err:'):
-        want = {'err:ParserError': 'err:ParserError', 'err:UnpackFailure': 'err:ValueError'}.get(model)
+        want = {'err:ParserError': 'err:ParserError'}.get(model)
         return 'agree' if impl == want else 'disagree'
     _, l, r = model.split('|')
     return 'agree' if impl == 'ok|' + model_terms(l, r) else 'disagree'
@@ -136,10 +136,8 @@ def cmp_parse_equation(model, impl):
         cls = model[4:]
         if impl['kind'] != 'err':
             return 'disagree', ''
-        if cls in ('ParserError', 'IndentationError'):
+        if cls in ('ParserError', 'IndentationError', 'SymbolError'):
             return ('agree' if impl['cls'] == cls else 'disagree'), ''
-        if cls == 'UnpackFailure':
-            return ('agree' if impl['cls'] == 'ValueError' else 'disagree'), ''
         if cls == 'FormatFailure':
             return ('agree' if impl['cls'] in FORMAT_EXC else 'disagree'), ''
         return 'disagree', ''
@@ -152,9 +150,6 @@ def cmp_parse_equation(model, impl):
     if eq == 'unmodelled' or code == 'unmodelled':
         return 'skip:format-unmodelled', ''
     if impl['kind'] == 'err':
-        # the symbol stage (Symbol.combine inside parse_equation) is not part of M2
-        if impl['cls'] == 'SymbolError':
-            return 'skip:symbol-stage', ''
         return 'disagree', ''
     if impl['kind'] != 'parsed':
         return 'disagree', ''
